@@ -312,6 +312,40 @@ def iter5(eng, out):
             if (d.startswith("core::slice::") and m in ("contains", "iter", "binary_search", "starts_with")) or (d.startswith("alloc::vec::Vec::<T") and m in ("contains", "remove", "insert", "retain", "dedup", "drain", "sort", "sort_unstable")):
                 if m in ("contains", "remove", "insert", "retain", "dedup", "sort", "sort_unstable", "binary_search"):
                     out.violate("ITER-5", "linear-scan-in-group-loop:%s" % m, "`%s` (linear in the collection) is called inside a loop over %s" % (d, drivers[h][2]), where_of(g, b), entry=eng.name)
+    # a closure handed to library code inside a group loop (the predicate of `extract_if` / `retain` / `filter` ...) that
+    # itself walks a sequence it captured (`cycle.iter().any(..)` instead of `cycle.contains_key(..)`): one scan per call
+    prog = getattr(eng, "program", None)
+    for h in groups:
+        for b in loops[h]:
+            t = g.blocks[b]["term"]
+            if t["k"] != "call" or not t.get("callee"):
+                continue
+            atys = list(t.get("argtys") or [])
+            for a in t.get("args") or []:
+                if a.get("k") in ("copy", "move") and not a["pl"]["p"]:
+                    atys.append(g.locals[a["pl"]["l"]]["ty"])      # (the inliner records closure values of generic locals)
+            seen_c = set()
+            for aty in atys:
+                cpath = (aty or {}).get("closure")
+                if cpath in seen_c:
+                    continue
+                seen_c.add(cpath)
+                if not cpath or prog is None or prog.facts.fn(cpath) is None:
+                    continue
+                g2 = prog.inlined(prog.facts.fn(cpath))
+                for b2, blk2 in enumerate(g2.blocks):
+                    t2 = blk2["term"]
+                    if blk2["cleanup"] or t2["k"] != "call" or not t2.get("callee"):
+                        continue
+                    d2 = t2["callee"]["def"]
+                    m2 = d2.rsplit("::", 1)[1]
+                    sty = (t2["callee"].get("self_ty") or {})
+                    seq_iter = sty.get("adt") in ("core::slice::Iter", "core::slice::IterMut", "alloc::vec::IntoIter", "alloc::collections::vec_deque::Iter") and sty.get("peel", 0) <= 1
+                    if (d2.startswith("core::iter::Iterator::") and m2 in SEARCH_ADAPTORS + ("count", "fold", "last", "nth", "sum") and seq_iter) or \
+                            (d2.startswith("core::slice::") and m2 in ("contains", "binary_search")) or (d2.startswith("alloc::vec::Vec::<T") and m2 in ("contains",)):
+                        out.obl("ITER-5", "scan-in-closure", (eng.name, b))
+                        out.violate("ITER-5", "sequence-scan-in-closure-in-group-loop:%s" % m2, "a closure run by `%s` inside a loop over %s walks a sequence it captured (`%s`): one linear scan per call, the work is no longer linear in objects plus adoptions" % (
+                            t["callee"]["def"].rsplit("::", 1)[1], drivers[h][2], m2), where_of(g, b), entry=eng.name)
     # inside the trace / teardown loops over the group, a scan of one link table per entry of another
     # link table is quadratic in the tables' sizes
     tables = [h for h, d in drivers.items() if d[0] == "table"]
